@@ -169,9 +169,11 @@ struct SemiS {
 };
 static_assert(!std::is_trivially_default_constructible_v<SemiS>);
 
-struct ConvTriv {  // convertible to Triv
-	i64 v = 0;
-	operator Triv() const { return Triv{v}; }  // NOLINT
+struct ConvTriv {  // convertible to Triv; same size, other representation: a bit copy instead of a conversion shows as a wrong value
+	i64 w = -1;
+	ConvTriv() = default;
+	explicit ConvTriv(i64 v) : w{~v} {}
+	operator Triv() const { return Triv{~w}; }  // NOLINT
 };
 
 // ---- uniform element access for the harness
@@ -198,7 +200,7 @@ template<> struct elem_traits<Triv> {
 	using conv = ConvTriv;
 	static constexpr bool tracked = false, throwing_move = false, trivial = true;
 	static auto make(i64 v) -> E { return E{v}; }
-	static auto make_conv(i64 v) -> ConvTriv { return ConvTriv{v}; }
+	static auto make_conv(i64 v) -> ConvTriv { return ConvTriv{v}; }  // explicit constructor: stores the complement
 	static auto read(E const& e, bool& /*ok*/) -> i64 { return e.v; }
 	static void write(E& e, i64 v) { e.v = v; }
 	static constexpr i64 value_init = 0;
